@@ -3,6 +3,9 @@
   PYTHONPATH=/repo:/verif /venv/bin/python -m harness.c06repro rv32 0020a1b3 x1=0xffffffff x2=1 [pc=0x1000]
       decodes the word with cpu_rv32i / cpu_rv64i, applies it to a concrete state (xi = 0x100*i + i unless given,
       32 bytes 01 02 .. 20 at 0x2000) and prints every register / pc / memory byte that changed.
+  PYTHONPATH=/repo:/verif /venv/bin/python -m harness.c06repro x64 31d8 rax=0x0f rbx=0xf0 [r=<16 hex>,..] [fl=0x1] [mem=<hex>]
+      decodes the bytes with cpu_x64 (x86: cpu_x86), applies them to the concrete state and prints amoco's registers,
+      flags and rip next to what the host processor produces for the same bytes and state (.work/bin/x86run).
 """
 import sys
 
